@@ -264,7 +264,74 @@ func (c ProgCfg) targetKeys(r *Rand, doc any, want func(any) bool) ([]string, Po
 	return ks, t, true
 }
 
+// plantMergeListDirectives appends {$merge: tmpl} to a list whose template
+// holds list-level override entries ($match / $delete / $replace) aimed at
+// the host list's own elements.
+func (c ProgCfg) plantMergeListDirectives(r *Rand, doc any) (any, string) {
+	root, ok := doc.(map[string]any)
+	if !ok {
+		return doc, ""
+	}
+	var hosts []Pos
+	for _, p := range ListPositions(doc) {
+		if _, ok := p.KeysOnly(); ok && len(p) > 0 {
+			hosts = append(hosts, p)
+		}
+	}
+	var h Pos
+	var l []any
+	if len(hosts) > 0 && r.Chance(0.6) {
+		h = PickAny(r, hosts)
+		v, _ := Get(doc, h)
+		l = v.([]any)
+	} else {
+		k := PickAny(r, WideKeys[6:])
+		l = []any{map[string]any{"name": "a", "port": 80}, map[string]any{"name": "b", "port": 81}, "plain"}
+		root[k] = l
+		h = Pos{Step{Key: k, IsKey: true}}
+	}
+	var tmpl []any
+	var maps []map[string]any
+	for _, e := range l {
+		if m, ok := e.(map[string]any); ok && len(m) > 0 {
+			maps = append(maps, m)
+		}
+	}
+	switch {
+	case len(maps) > 0 && r.Chance(0.7):
+		e := maps[r.Intn(len(maps))]
+		pat := map[string]any{}
+		for _, k := range SortedKeys(e) {
+			if isScalar(e[k]) && e[k] != nil && !strings.HasPrefix(k, "$") {
+				pat[k] = e[k]
+				break
+			}
+		}
+		if r.Chance(0.75) {
+			tmpl = []any{map[string]any{"$match": pat, PickAny(r, WideKeys[6:]): c.Tree.Scalar(r)}}
+		} else {
+			tmpl = []any{map[string]any{"$delete": pat}}
+		}
+	case r.Chance(0.5):
+		tmpl = []any{"extra", "$replace"}
+	default:
+		tmpl = []any{c.Tree.Scalar(r), map[string]any{"added": 1}}
+	}
+	if r.Chance(0.6) {
+		tmpl = append(tmpl, map[string]any{"$output": false}) // the template itself is hidden
+	}
+	tk := "tmpl_" + PickAny(r, DefaultKeys)
+	root[tk] = tmpl
+	nl := append(append([]any{}, l...), map[string]any{"$merge": tk})
+	return Set(doc, h, nl), "merge-list-directives"
+}
+
 func (c ProgCfg) plantMerge(r *Rand, doc any) (any, string) {
+	if r.Chance(0.2) {
+		if d2, name := c.plantMergeListDirectives(r, doc); name != "" {
+			return d2, name
+		}
+	}
 	if r.Chance(0.25) { // list host
 		ks, t, ok := c.targetKeys(r, doc, isList)
 		if !ok {
